@@ -1074,3 +1074,61 @@ silent("c07-move-amount-built-by-helper", "C07",
        (MVD, "	amount := sdk.NewCoins()\n	for _, denom := range msg.Denoms {\n		if len(denom) == 0 {\n			return nil, sdkerrors.Wrapf(types.ErrParam, \"move available vesting by denoms - empty denom\")\n		}\n		denAmount := locked.AmountOf(denom)\n		if denAmount.IsPositive() {\n			amount = amount.Add(sdk.NewCoin(denom, denAmount))\n		}\n	}\n",
         "	amount, err := lockedOfDenoms(locked, msg.Denoms)\n	if err != nil {\n		return nil, err\n	}\n"),
        (MVD, "func (k msgServer) MoveAvailableVestingByDenoms(", "func lockedOfDenoms(locked sdk.Coins, denoms []string) (sdk.Coins, error) {\n	amount := sdk.NewCoins()\n	for _, denom := range denoms {\n		if len(denom) == 0 {\n			return nil, sdkerrors.Wrapf(types.ErrParam, \"move available vesting by denoms - empty denom\")\n		}\n		denAmount := locked.AmountOf(denom)\n		if denAmount.IsPositive() {\n			amount = amount.Add(sdk.NewCoin(denom, denAmount))\n		}\n	}\n	return amount, nil\n}\n\nfunc (k msgServer) MoveAvailableVestingByDenoms("))
+WAA_SEND = "	if toWithdraw.GT(sdk.ZeroInt()) {\n		coinToSend := sdk.NewCoin(denom, toWithdraw)\n		coinsToSend := sdk.NewCoins(coinToSend)\n		err = k.bank.SendCoinsFromModuleToAccount(ctx, types.ModuleName, ownerAddress, coinsToSend)\n		if err != nil {"
+silent("c05-pair-send-guard-as-not-zero-or-negative", ["C05", "C06", "C18", "C20"],
+       (VESTGO, WAA_SEND, "	if !toWithdraw.LTE(sdk.ZeroInt()) {\n		coinsToSend := sdk.NewCoins(sdk.NewCoin(denom, toWithdraw))\n		err = k.bank.SendCoinsFromModuleToAccount(ctx, types.ModuleName, ownerAddress, coinsToSend)\n		if err != nil {"))
+silent("c05-pair-send-in-helper-returning-error", ["C05", "C06", "C18", "C20"],
+       (VESTGO, WAA_SEND + "\n			k.Logger(ctx).Error(\"withdraw all available sending coins to vesting account error\", \"owner\", owner, \"error\", err.Error())\n			return withdrawn, sdkerrors.Wrap(types.ErrSendCoins, sdkerrors.Wrapf(err, \"withdraw all available - send coins to vesting account error: owner: %s\", owner).Error())\n		}\n	}\n",
+        "	if err = k.payWithdrawn(ctx, ownerAddress, denom, toWithdraw); err != nil {\n		k.Logger(ctx).Error(\"withdraw all available sending coins to vesting account error\", \"owner\", owner, \"error\", err.Error())\n		return withdrawn, sdkerrors.Wrap(types.ErrSendCoins, sdkerrors.Wrapf(err, \"withdraw all available - send coins to vesting account error: owner: %s\", owner).Error())\n	}\n"),
+       (VESTGO, "func (k Keeper) SendToNewVestingAccount(", "func (k Keeper) payWithdrawn(ctx sdk.Context, to sdk.AccAddress, denom string, amount math.Int) error {\n	if !amount.IsPositive() {\n		return nil\n	}\n	return k.bank.SendCoinsFromModuleToAccount(ctx, types.ModuleName, to, sdk.NewCoins(sdk.NewCoin(denom, amount)))\n}\n\nfunc (k Keeper) SendToNewVestingAccount("))
+silent("c18-guard-events-collected-after-the-loop-by-index", ["C18", "C05"],
+       (VESTGO, "		if withdrawable.IsPositive() {\n			events = append(events, types.WithdrawAvailable{\n				Owner:           owner,\n				VestingPoolName: vestingPool.Name,\n				Amount:          withdrawable.String() + denom,\n			})\n		}\n	}",
+        "		if !withdrawable.IsPositive() {\n			continue\n		}\n		event := types.WithdrawAvailable{\n			Owner:           owner,\n			VestingPoolName: vestingPool.Name,\n			Amount:          withdrawable.String() + denom,\n		}\n		events = append(events, event)\n	}"))
+silent("c07-transfer-through-a-thin-keeper-helper", ["C07", "C09", "C17", "C20"],
+       (SPLIT, "	if err = k.bank.SendCoins(ctx, from, toAddress, amount); err != nil {\n		return sdkerrors.Wrap(err, \"split vesting coins\")\n	}\n", "	if err = k.moveCoins(ctx, from, toAddress, amount); err != nil {\n		return sdkerrors.Wrap(err, \"split vesting coins\")\n	}\n"),
+       (SPLIT, "func (k msgServer) splitVestingCoins(", "func (k msgServer) moveCoins(ctx sdk.Context, from, to sdk.AccAddress, amount sdk.Coins) error {\n	return k.bank.SendCoins(ctx, from, to, amount)\n}\n\nfunc (k msgServer) splitVestingCoins("))
+silent("c05-lock-coins-through-a-helper-handed-the-amount", ["C05", "C08", "C20"],
+       (VESTGO, "	coinToSend := sdk.NewCoin(denom, amount)\n	coinsToSend := sdk.NewCoins(coinToSend)\n	err := k.bank.SendCoinsFromAccountToModule(ctx, accAddress, types.ModuleName, coinsToSend)\n	if err != nil {\n		k.Logger(ctx).Error(\"add vesting pool sendig coins to vesting pool error\"",
+        "	err := k.lockInModule(ctx, accAddress, denom, amount)\n	if err != nil {\n		k.Logger(ctx).Error(\"add vesting pool sendig coins to vesting pool error\""),
+       (VESTGO, "func (k Keeper) SendToNewVestingAccount(", "func (k Keeper) lockInModule(ctx sdk.Context, from sdk.AccAddress, denom string, amount math.Int) error {\n	return k.bank.SendCoinsFromAccountToModule(ctx, from, types.ModuleName, sdk.NewCoins(sdk.NewCoin(denom, amount)))\n}\n\nfunc (k Keeper) SendToNewVestingAccount("))
+silent("c07-guard-condition-in-a-bool-local", ["C07", "C20"],
+       ("x/cfevesting/keeper/vesting_account_split.go", "	if !amountToUnlock.IsAllLTE(lockedCoins) {", "	enoughLocked := amountToUnlock.IsAllLTE(lockedCoins)\n	if !enoughLocked {"))
+silent("c09-fresh-existence-in-a-bool-local", ["C09", "C07", "C08"],
+       (SPLIT, "	if acc := k.account.GetAccount(ctx, toAddress); acc != nil {", "	recipientExists := k.account.GetAccount(ctx, toAddress) != nil\n	if recipientExists {"))
+silent("c09-fresh-existence-through-hasaccount", ["C09", "C07", "C08"],
+       (SPLIT, "	if acc := k.account.GetAccount(ctx, toAddress); acc != nil {", "	if k.recipientExists(ctx, toAddress) {"),
+       (SPLIT, "func (k msgServer) splitVestingCoins(", "func (k msgServer) recipientExists(ctx sdk.Context, address sdk.AccAddress) bool {\n	return k.account.GetAccount(ctx, address) != nil\n}\n\nfunc (k msgServer) splitVestingCoins("))
+fire("c09-fresh-existence-predicate-inverted", "C09", ["C09.fresh"],
+     (SPLIT, "	if acc := k.account.GetAccount(ctx, toAddress); acc != nil {", "	if k.recipientFree(ctx, toAddress) {"),
+     (SPLIT, "func (k msgServer) splitVestingCoins(", "func (k msgServer) recipientFree(ctx sdk.Context, address sdk.AccAddress) bool {\n	return k.account.GetAccount(ctx, address) == nil\n}\n\nfunc (k msgServer) splitVestingCoins("))
+MINTGO = "x/cfeminter/keeper/mint.go"
+silent("c02-nonneg-amount-through-a-helper-and-bool-local", ["C01", "C02", "C10", "C19", "C20"],
+       (MINTGO, "	amount := expectedAmountToMint.TruncateInt().Sub(minterState.AmountMinted)\n	if amount.IsNegative() {", "	amount := stillToMint(expectedAmountToMint, minterState.AmountMinted)\n	nothingToMint := amount.IsNegative()\n	if nothingToMint {"),
+       (MINTGO, "func (k Keeper) mint(", "func stillToMint(expected sdk.Dec, alreadyMinted math.Int) math.Int {\n	return expected.TruncateInt().Sub(alreadyMinted)\n}\n\nfunc (k Keeper) mint("))
+silent("c02-start-time-through-a-helper", ["C01", "C02", "C10", "C19", "C20"],
+       (MINTGO, "	var startTime time.Time\n	if previousMinter == nil {\n		startTime = params.StartTime\n	} else {\n		startTime = *previousMinter.EndTime\n	}\n", "	startTime := periodStart(params, previousMinter)\n"),
+       (MINTGO, "func (k Keeper) mint(", "func periodStart(params *types.Params, previousMinter *types.Minter) time.Time {\n	if previousMinter == nil {\n		return params.StartTime\n	}\n	return *previousMinter.EndTime\n}\n\nfunc (k Keeper) mint("))
+silent("c01-mint-coins-error-check-inline", ["C01", "C02", "C10", "C20"],
+       (MINTGO, "	err := k.MintCoins(ctx, coins)\n	if err != nil {\n		k.Logger(ctx).Error(\"mint - mint coins error\", \"lev\", level, \"error\", err.Error())\n		return sdk.ZeroInt(), sdkerrors.Wrap(err, \"minter mint coins error\")\n	}\n\n	err = k.SendMintedCoins(ctx, coins)\n	if err != nil {",
+        "	if err := k.MintCoins(ctx, coins); err != nil {\n		k.Logger(ctx).Error(\"mint - mint coins error\", \"lev\", level, \"error\", err.Error())\n		return sdk.ZeroInt(), sdkerrors.Wrap(err, \"minter mint coins error\")\n	}\n\n	err := k.SendMintedCoins(ctx, coins)\n	if err != nil {"))
+NVA_OV = "	decimalAmount := sdk.NewDecFromInt(amount)\n	originalVestingAmount := decimalAmount.Sub(decimalAmount.Mul(free)).TruncateInt()\n	originalVestingCoin := sdk.NewCoin(denom, originalVestingAmount)\n	originalVesting := sdk.NewCoins(originalVestingCoin)\n"
+silent("c08-vested-original-vesting-through-a-helper", ["C08", "C05", "C09", "C20"],
+       (VESTGO, NVA_OV, "	originalVesting := vestedPart(denom, amount, free)\n"),
+       (VESTGO, "func (k Keeper) newContinuousVestingAccount(", "func vestedPart(denom string, amount math.Int, free sdk.Dec) sdk.Coins {\n	decimalAmount := sdk.NewDecFromInt(amount)\n	vested := decimalAmount.Sub(decimalAmount.Mul(free)).TruncateInt()\n	return sdk.NewCoins(sdk.NewCoin(denom, vested))\n}\n\nfunc (k Keeper) newContinuousVestingAccount("))
+silent("c08-schedule-start-through-a-later-of-helper", ["C08", "C05", "C20"],
+       (VESTGO, "	startTime := lockEnd\n	if lockEnd.Before(ctx.BlockTime()) {\n		startTime = ctx.BlockTime()\n	}\n\n	_, err := k.newContinuousVestingAccount(", "	startTime := laterOf(lockEnd, ctx.BlockTime())\n\n	_, err := k.newContinuousVestingAccount("),
+       (VESTGO, "func (k Keeper) newContinuousVestingAccount(", "func laterOf(a, b time.Time) time.Time {\n	if a.Before(b) {\n		return b\n	}\n	return a\n}\n\nfunc (k Keeper) newContinuousVestingAccount("))
+silent("c08-fresh-prechecks-in-one-helper", ["C08", "C05", "C09", "C20"],
+       (VESTGO, "	ak := k.account\n	bk := k.bank\n	coinToSend := sdk.NewCoin(denom, amount)\n", "	ak := k.account\n	coinToSend := sdk.NewCoin(denom, amount)\n"),
+       (VESTGO, "	if err := bk.IsSendEnabledCoins(ctx, coinToSend); err != nil {\n		k.Logger(ctx).Debug(\"new vesting account is send coins disabled error\", \"error\", err.Error())\n		return sdkerrors.Wrapf(err, \"new vesting account - is send coins disabled\")\n	}\n\n	if bk.BlockedAddr(toAddress) {\n		k.Logger(ctx).Debug(\"new vesting account is not allowed to receive funds error\", \"address\", toAddress)\n		return sdkerrors.Wrapf(types.ErrAccountNotAllowedToReceiveFunds, \"new vesting account - account address: %s\", toAddress)\n	}\n",
+        "	if err := k.mayReceive(ctx, toAddress, coinToSend); err != nil {\n		return err\n	}\n"),
+       (VESTGO, "func (k Keeper) newContinuousVestingAccount(", "func (k Keeper) mayReceive(ctx sdk.Context, toAddress sdk.AccAddress, coinToSend sdk.Coin) error {\n	if err := k.bank.IsSendEnabledCoins(ctx, coinToSend); err != nil {\n		k.Logger(ctx).Debug(\"new vesting account is send coins disabled error\", \"error\", err.Error())\n		return sdkerrors.Wrapf(err, \"new vesting account - is send coins disabled\")\n	}\n	if k.bank.BlockedAddr(toAddress) {\n		k.Logger(ctx).Debug(\"new vesting account is not allowed to receive funds error\", \"address\", toAddress)\n		return sdkerrors.Wrapf(types.ErrAccountNotAllowedToReceiveFunds, \"new vesting account - account address: %s\", toAddress)\n	}\n	return nil\n}\n\nfunc (k Keeper) newContinuousVestingAccount("))
+SWEEP_MOD = "	coinsToSend := k.GetAccountCoinsForModuleAccount(ctx, source.Id)\n	coinsToDistribute := sdk.NewDecCoinsFromCoins(coinsToSend...)\n\n	if len(coinsToDistribute) > 0 {\n		err := k.SendCoinsFromModuleToModule(ctx, coinsToSend, source.Id, types.DistributorMainAccount)\n		if err != nil {\n			k.Logger(ctx).Error(\"prep coins module - send coins to main account\", \"subDistributorName\", subDistributorName, \"source\", source, \"error\", err.Error())\n			return nil\n		}\n	}\n"
+silent("c14-sweep-empty-balance-returns-early", ["C01", "C03", "C14", "C18", "C10"],
+       (DISTGO, SWEEP_MOD, "	coinsToSend := k.GetAccountCoinsForModuleAccount(ctx, source.Id)\n	coinsToDistribute := sdk.NewDecCoinsFromCoins(coinsToSend...)\n	if coinsToDistribute.Empty() {\n		k.Logger(ctx).Debug(\"prepare coins to distribute for module account\", \"subDistr\", subDistributorName,\n			\"account\", source.Id, \"coinsToDistribute\", coinsToDistribute.String())\n		return coinsToDistribute\n	}\n	if err := k.SendCoinsFromModuleToModule(ctx, coinsToSend, source.Id, types.DistributorMainAccount); err != nil {\n		k.Logger(ctx).Error(\"prep coins module - send coins to main account\", \"subDistributorName\", subDistributorName, \"source\", source, \"error\", err.Error())\n		return nil\n	}\n"))
+silent("c14-sweep-swept-through-a-bool-helper", ["C01", "C03", "C14", "C18", "C10"],
+       (DISTGO, SWEEP_MOD, "	coinsToSend := k.GetAccountCoinsForModuleAccount(ctx, source.Id)\n	coinsToDistribute := sdk.NewDecCoinsFromCoins(coinsToSend...)\n\n	if len(coinsToDistribute) > 0 && !k.sweepModule(ctx, coinsToSend, source, subDistributorName) {\n		return nil\n	}\n"),
+       (DISTGO, "func (k Keeper) prepareCoinToDistributeForModuleAccount(", "func (k Keeper) sweepModule(ctx sdk.Context, coinsToSend sdk.Coins, source types.Account, subDistributorName string) bool {\n	err := k.SendCoinsFromModuleToModule(ctx, coinsToSend, source.Id, types.DistributorMainAccount)\n	if err != nil {\n		k.Logger(ctx).Error(\"prep coins module - send coins to main account\", \"subDistributorName\", subDistributorName, \"source\", source, \"error\", err.Error())\n		return false\n	}\n	return true\n}\n\nfunc (k Keeper) prepareCoinToDistributeForModuleAccount("))
+fire("c14-sweep-bool-helper-answers-true-after-a-failure", ["C14", "C01"], ["C14.sweep", "C01.sweep"],
+     (DISTGO, SWEEP_MOD, "	coinsToSend := k.GetAccountCoinsForModuleAccount(ctx, source.Id)\n	coinsToDistribute := sdk.NewDecCoinsFromCoins(coinsToSend...)\n\n	if len(coinsToDistribute) > 0 && !k.sweepModule(ctx, coinsToSend, source, subDistributorName) {\n		return nil\n	}\n"),
+     (DISTGO, "func (k Keeper) prepareCoinToDistributeForModuleAccount(", "func (k Keeper) sweepModule(ctx sdk.Context, coinsToSend sdk.Coins, source types.Account, subDistributorName string) bool {\n	err := k.SendCoinsFromModuleToModule(ctx, coinsToSend, source.Id, types.DistributorMainAccount)\n	if err != nil {\n		k.Logger(ctx).Error(\"prep coins module - send coins to main account\", \"subDistributorName\", subDistributorName, \"source\", source, \"error\", err.Error())\n	}\n	return true\n}\n\nfunc (k Keeper) prepareCoinToDistributeForModuleAccount("))
